@@ -13,8 +13,11 @@
 (*   SetE(s, k, v)        orbit.set_eccentricity(signature, v): signature s   *)
 (*                        is a moon or "host", given as instance, name,        *)
 (*                        lower-case name, title-case name or index (k)       *)
-(*   SetA(s, k, v)        the same for the semi-major axis (and with it the   *)
-(*                        mean motion and period: Kepler, checked by C17)     *)
+(*   SetA(s, k, v, via)   the same for the Kepler triple (a, n, P), given as   *)
+(*                        semi-major axis, mean motion or period through the  *)
+(*                        single-quantity setter or through set_state (via):  *)
+(*                        the harness converts with the true masses, so the   *)
+(*                        stored semi-major axis must come out as value v     *)
 (*   ClearSpecific(s, k)  orbit.clear_state(clear_all=False, clear_specific=s)*)
 (*   ClearAll             orbit.clear_state()                                 *)
 (* The tidal host's signature stands for the orbit of whichever moon is       *)
@@ -56,8 +59,9 @@ Sigs == Added \cup (IF raiser # "none" THEN {"host"} ELSE {})
 SetE(s, k, v) ==
   /\ s \in Sigs /\ Step(<<"SetE", s, k, v>>)
   /\ ecc' = [ecc EXCEPT ![Target(s)] = v] /\ UNCHANGED <<order, raiser, sma>>
-SetA(s, k, v) ==
-  /\ s \in Sigs /\ Step(<<"SetA", s, k, v>>)
+Vias == {"a", "n", "P", "state_a", "state_n", "state_P"}
+SetA(s, k, v, via) ==
+  /\ s \in Sigs /\ Step(<<"SetA", s, k, v, via>>)
   /\ sma' = [sma EXCEPT ![Target(s)] = v] /\ UNCHANGED <<order, raiser, ecc>>
 ClearSpecific(s, k) ==
   /\ s \in Sigs /\ Step(<<"ClearSpecific", s, k>>)
@@ -68,7 +72,7 @@ ClearAll ==
 
 Next == \/ \E m \in Moons : AddMoon(m)
         \/ \E m \in Moons, k \in Kinds : SetRaiser(m, k)
-        \/ \E s \in Moons \cup {"host"}, k \in Kinds, v \in Vals : SetE(s, k, v) \/ SetA(s, k, v)
+        \/ \E s \in Moons \cup {"host"}, k \in Kinds, v \in Vals : SetE(s, k, v) \/ (\E via \in Vias : SetA(s, k, v, via))
         \/ \E s \in Moons \cup {"host"}, k \in Kinds : ClearSpecific(s, k)
         \/ ClearAll
 Spec == Init /\ [][Next]_vars
